@@ -6,10 +6,32 @@ namespace DoitModel.Run
 /-- serial runner: the node being executed / fed back is the node the dispatcher yielded last -/
 def SB (s : Sys) : Prop := ∀ n, (s.rpc = .sExec n ∨ s.rpc = .sTop (some n)) → s.susp = some (.node n)
 
+def Ev.startName : Ev → Option Name
+  | .start n _ => some n
+  | _ => none
+
+/-- the tasks started so far, newest first -/
+def startsOf (l : List Ev) : List Name := l.filterMap Ev.startName
+
+theorem startsOf_append (a b : List Ev) : startsOf (a ++ b) = startsOf a ++ startsOf b := by
+  simp [startsOf, List.filterMap_append]
+
+theorem startsOf_selEvents (inp : RunInput) (n : Name) (nd : Node) (d : Sel) : startsOf (selEvents inp n nd d) = [] := by
+  cases d <;> simp [selEvents, statusEv, startsOf, Ev.startName] <;> split <;> simp [Ev.startName]
+
+theorem startsOf_resEvents (n : Name) (o : Outcome) : startsOf (resEvents n o) = [] := by
+  cases o <;> simp [resEvents, startsOf, Ev.startName]
+
+theorem startsOf_teardown (l : List Name) : startsOf (l.map Ev.teardown) = [] := by
+  induction l with
+  | nil => rfl
+  | cons a t ih => simpa [startsOf, Ev.startName] using ih
+
 structure StepFacts (inp : RunInput) (s s' : Sys) : Prop where
   keep : KeepW (sentBack s) s s'
-  ev : ∀ b w, Ev.start b w ∈ s'.events → Ev.start b w ∈ s.events ∨
-    (s.rpc = .sWait ∧ s.susp = some (.node b) ∧ ∃ nd, s.nodes b = some nd ∧ selDecision inp b nd = .go)
+  ev : startsOf s'.events = startsOf s.events ∨
+    (∃ b, startsOf s'.events = b :: startsOf s.events ∧ s.rpc = .sWait ∧ s.susp = some (.node b) ∧
+      ∃ nd, s.nodes b = some nd ∧ selDecision inp b nd = .go)
   toRun : s'.toRun = s.toRun ∨
     (∃ t, s.toRun = t :: s'.toRun ∧ s.rpc = .sWait ∧ s.susp = none ∧ s.cur = none ∧ s.ready = [] ∧ created s' t)
   sb : SB s → SB s'
@@ -79,13 +101,13 @@ theorem serialStep_facts {inp : RunInput} {s s' : Sys} {perm : List Name}
   have plain : ∀ s1 : Sys, s1.nodes = s.nodes → s1.events = s.events → s1.toRun = s.toRun →
       (∀ n, s1.rpc ≠ .sExec n ∧ s1.rpc ≠ .sTop (some n)) → StepFacts inp s s1 := by
     intro s1 e1 e2 e3 hr
-    exact ⟨KeepW.of_eq e1, fun b w a => Or.inl (e2 ▸ a), Or.inl e3, fun _ n a => by
+    exact ⟨KeepW.of_eq e1, Or.inl (by rw [e2]), Or.inl e3, fun _ n a => by
       rcases a with a | a
       · exact absurd a (hr n).1
       · exact absurd a (hr n).2⟩
   have raised : ∀ hl : Halt, StepFacts inp s (raise s hl) := by
     intro hl
-    exact ⟨KeepW.of_eq rfl, fun b w a => Or.inl a, Or.inl rfl, fun _ n a => by
+    exact ⟨KeepW.of_eq rfl, Or.inl rfl, Or.inl rfl, fun _ n a => by
       rcases a with a | a <;> cases a⟩
   unfold serialStep at hs
   cases hr : s.rpc with
@@ -102,9 +124,7 @@ theorem serialStep_facts {inp : RunInput} {s s' : Sys} {perm : List Name}
         · have : sentBack s = node := by simp [sentBack, hr]
           rw [this]
           exact (keepW_send hsd).trans (KeepW.of_eq rfl)
-        · intro b w a
-          have a' : Ev.start b w ∈ s0.events := a
-          rw [o.1] at a'; exact Or.inl a'
+        · exact Or.inl (by show startsOf s0.events = _; rw [o.1])
         · intro _ n a; rcases a with a | a <;> cases a
   | sWait =>
     simp only [hr] at hs
@@ -113,7 +133,7 @@ theorem serialStep_facts {inp : RunInput} {s s' : Sys} {perm : List Name}
       simp only [hsu] at hs
       have o := dtick_outer hs
       refine ⟨keepW_dtick _ hs, ?_, ?_, ?_⟩
-      · intro b w a; rw [o.1] at a; exact Or.inl a
+      · exact Or.inl (by rw [o.1])
       · rcases dtick_toRun hs with a | ⟨t, a1, a2, a3, a4⟩
         · exact Or.inl a
         · exact Or.inr ⟨t, a1, hr, hsu, a2, a3, a4⟩
@@ -135,12 +155,9 @@ theorem serialStep_facts {inp : RunInput} {s s' : Sys} {perm : List Name}
             intro d hd h1 h2
             refine ⟨keepW_status _ (selStatus d) hn (applySel_nodes inp s n nd d h1), ?_,
               Or.inl (applySel_toRun inp s n nd d), ?_⟩
-            · intro b w a
-              have a' : Ev.start b w ∈ (applySel inp s n nd d).events := a
-              rw [applySel_events, List.mem_append] at a'
-              rcases a' with x | x
-              · exact absurd x (start_not_in_selEvents inp n nd d b w)
-              · exact Or.inl x
+            · left
+              show startsOf (applySel inp s n nd d).events = _
+              rw [applySel_events, startsOf_append, startsOf_selEvents]; rfl
             · intro _ m a
               rcases a with a | a
               · cases a
@@ -153,24 +170,15 @@ theorem serialStep_facts {inp : RunInput} {s s' : Sys} {perm : List Name}
             simp only [hd] at hs; cases hs
             refine ⟨keepW_status _ (selStatus .go) hn (applySel_nodes inp s n nd .go (by simp)), ?_,
               Or.inl (applySel_toRun inp s n nd .go), ?_⟩
-            · intro b w a
-              have a' : Ev.start b w ∈ (startTask inp (applySel inp s n nd .go) n 0).events := a
-              simp only [startTask] at a'
-              have inOld : Ev.start b w ∈ (applySel inp s n nd .go).events → Ev.start b w ∈ s.events := by
-                intro x
-                rw [applySel_events, List.mem_append] at x
-                rcases x with x | x
-                · exact absurd x (start_not_in_selEvents inp n nd .go b w)
-                · exact x
-              split at a'
-              · rcases List.mem_cons.mp a' with x | x
-                · cases x; exact Or.inr ⟨hr, hsu, nd, hn, hd⟩
-                · exact Or.inl (inOld x)
-              · rcases List.mem_cons.mp a' with x | x
-                · cases x; exact Or.inr ⟨hr, hsu, nd, hn, hd⟩
-                · rcases List.mem_cons.mp x with y | y
-                  · cases y
-                  · exact Or.inl (inOld y)
+            · right
+              refine ⟨n, ?_, hr, hsu, nd, hn, hd⟩
+              show startsOf (startTask inp (applySel inp s n nd .go) n 0).events = _
+              have e : startsOf (applySel inp s n nd .go).events = startsOf s.events := by
+                rw [applySel_events, startsOf_append, startsOf_selEvents]; rfl
+              simp only [startTask]
+              split
+              · simp only [startsOf, List.filterMap_cons, Ev.startName]; exact congrArg _ e
+              · simp only [startsOf, List.filterMap_cons, Ev.startName]; exact congrArg _ e
             · intro _ m a
               rcases a with a | a
               · simp only [RPC.sExec.injEq] at a
@@ -197,14 +205,10 @@ theorem serialStep_facts {inp : RunInput} {s s' : Sys} {perm : List Name}
       simp only [hn] at hs; cases hs
       refine ⟨keepW_status _ (resStatus (inp.outcome n)) hn (processResult_nodes inp _ n nd), ?_,
         Or.inl (processResult_toRun inp _ n nd), ?_⟩
-      · intro b w a
-        have a' : Ev.start b w ∈ (processResult inp { s with rpc := .sExec n, events := Ev.fin n 0 :: s.events } n nd).events := a
-        rw [processResult_events, List.mem_append] at a'
-        rcases a' with x | x
-        · exact absurd x (start_not_in_resEvents n _ b w)
-        · rcases List.mem_cons.mp x with y | y
-          · cases y
-          · exact Or.inl y
+      · left
+        show startsOf (processResult inp { s with rpc := .sExec n, events := Ev.fin n 0 :: s.events } n nd).events = _
+        rw [processResult_events, startsOf_append, startsOf_resEvents]
+        simp only [startsOf, List.filterMap_cons, Ev.startName, List.nil_append]
       · intro hsb m a
         rcases a with a | a
         · cases a
@@ -216,12 +220,11 @@ theorem serialStep_facts {inp : RunInput} {s s' : Sys} {perm : List Name}
   | fin =>
     simp only [hr] at hs; cases hs
     refine ⟨KeepW.of_eq rfl, ?_, Or.inl rfl, fun _ n a => by rcases a with a | a <;> cases a⟩
-    intro b w a
-    simp only [finishRun, List.mem_cons, List.mem_append, List.mem_map] at a
-    rcases a with a | ⟨x, _, a⟩ | a
-    · cases a
-    · cases a
-    · exact Or.inl a
+    left
+    show startsOf (Ev.complete :: ((s.tdown.map Ev.teardown) ++ s.events)) = _
+    have := startsOf_teardown s.tdown
+    simp only [startsOf, List.filterMap_cons, Ev.startName, List.filterMap_append] at this ⊢
+    rw [this]; rfl
   | gEntry a b => simp only [hr] at hs; cases hs
   | gLoop a b => simp only [hr] at hs; cases hs
   | gWait a => simp only [hr] at hs; cases hs
